@@ -14,9 +14,10 @@ CONSTANTS
   MaxCalls,    \* number of RE(...) calls
   SuspPre, SuspPost,   \* pre/post plans of suspensions (sequences of messages)
   MaxUpdates,  \* number of monitor updates
+  MaxSusOps,   \* number of operations on suspender objects (install / remove / signal change)
   RecordIntr   \* RE.record_interruptions
 
-VARIABLES env      \* [nreq, nfault, ncall, nupd, susp (futures with a suspension requested)]
+VARIABLES env      \* [nreq, nfault, ncall, nupd, nsus, susp (futures with a suspension requested)]
 mcvars == <<S, obs, env, mon>>
 
 N == Len(Prog.msgs)
@@ -49,7 +50,7 @@ ProgReact(g, inp) ==
 DevCmds == {"read", "set", "trigger", "stage", "unstage"}
 StatusCmds == {"set", "trigger"}
 
-MCInit == Init /\ MonInit /\ env = [nreq |-> 0, nfault |-> 0, ncall |-> 0, nupd |-> 0, susp |-> {}]
+MCInit == Init /\ MonInit /\ env = [nreq |-> 0, nfault |-> 0, ncall |-> 0, nupd |-> 0, nsus |-> 0, susp |-> {}]
 
 Bump(f) == env' = [env EXCEPT ![f] = @ + 1]
 
@@ -74,6 +75,12 @@ MCNext ==
   \/ \E f \in env.susp : Release(f) /\ UNCHANGED env
   \/ \E sid \in DOMAIN S.stDone : \E ok \in BOOLEAN : (ok \/ "fail" \in FaultKinds) /\ StatusDone(sid, ok) /\ UNCHANGED env
   \/ /\ env.nupd < MaxUpdates /\ \E d \in Mons : MonitorUpdate(d) /\ Bump("nupd")
+  \/ /\ env.nsus < MaxSusOps
+     /\ \E x \in Suspenders : \/ ~S.sus[x].inst /\ SusInstall(x)
+                              \/ S.sus[x].inst /\ SusRemove(x)
+                              \/ \E v \in {0, 1} : v # S.sigv[x] /\ SigPut(SigOf[x], v)
+     /\ Bump("nsus")
+  \/ ((\E f \in S.relq : SusRelease(f)) \/ SusCb \/ SusLand \/ SusRet) /\ UNCHANGED env
   \/ env.ncall < MaxCalls /\ Call(NoP, RecordIntr) /\ Bump("ncall")
   \/ (Return \/ LateReqRet) /\ UNCHANGED env
   \/ "resume" \in Decisions /\ CallResume /\ UNCHANGED env
